@@ -51,6 +51,7 @@ func genCase(t *rapid.T) Case {
 	for i := 0; i < n; i++ {
 		r := Resp{Scheme: rapid.SampledFrom([]string{"http", "http", "http", "http", "HTTP", "https-untrusted", "refused", "ldap", "garbage-url"}).Draw(t, fmt.Sprintf("scheme%d", i))}
 		r.Answer.Kind = rapid.SampledFrom(answerKinds).Draw(t, fmt.Sprintf("kind%d", i))
+		r.Answer.RevokedAtFuture = r.Answer.Kind == "revoked" && rapid.IntRange(0, 2).Draw(t, fmt.Sprintf("future%d", i)) == 0
 		switch rapid.IntRange(0, 7).Draw(t, fmt.Sprintf("deleg%d", i)) {
 		case 0:
 			r.Answer.Signer = "delegated"
@@ -275,7 +276,7 @@ var spec = ev.Spec[Case]{
 	ID:          "C02",
 	Gen:         genCase,
 	Run:         runCase,
-	Rule:        "rapid draws a responder list of 0..4 URLs over schemes {http, HTTP (upper case), https with an untrusted certificate, connection refused, ldap, ftp}, a behaviour per responder {good, revoked, unknown (issuer-signed or by an issuer-delegated responder), HTTP 500 + body, garbage, HTML page, empty body, OCSP error status tryLater / unauthorized / internalError}, strict on/off, cache 0 / 30 s, CA and leaf key types, leaf AKI form (keyId, absent, issuer+serial, both), chain depth, and a second handshake {none, all responders down, deciding responder flipped, a responder recovering with 'revoked' after a first handshake without any authentic answer, the same certificate on another instance with the opposite strictness}. Reference model: walk the HTTP responders in order, the first authentic answer decides (revoked => reject), no authentic answer => reject iff strict and an HTTP responder is named. Oracle: verdict equality; HTTP responders before the deciding one were contacted, later ones and non-HTTP ones never; with the authentic answer cached the second handshake keeps the verdict although every responder is down; with nothing cacheable it follows the responders; a handshake without an authentic answer leaves nothing behind (the recovered responder decides, the other instance applies its own strictness). Non-trivial: a non-answer before the deciding responder, or strict with all unavailable, or a second handshake; distinct by the full case shape.",
+	Rule:        "rapid draws a responder list of 0..4 URLs over schemes {http, HTTP (upper case), https with an untrusted certificate, connection refused, ldap, ftp}, a behaviour per responder {good, revoked (revocationTime in the past or a few hours ahead of the local clock), unknown (issuer-signed or by an issuer-delegated responder), HTTP 500 + body, garbage, HTML page, empty body, OCSP error status tryLater / unauthorized / internalError}, strict on/off, cache 0 / 30 s, CA and leaf key types, leaf AKI form (keyId, absent, issuer+serial, both), chain depth, and a second handshake {none, all responders down, deciding responder flipped, a responder recovering with 'revoked' after a first handshake without any authentic answer, the same certificate on another instance with the opposite strictness}. Reference model: walk the HTTP responders in order, the first authentic answer decides (revoked => reject), no authentic answer => reject iff strict and an HTTP responder is named. Oracle: verdict equality; HTTP responders before the deciding one were contacted, later ones and non-HTTP ones never; with the authentic answer cached the second handshake keeps the verdict although every responder is down; with nothing cacheable it follows the responders; a handshake without an authentic answer leaves nothing behind (the recovered responder decides, the other instance applies its own strictness). Non-trivial: a non-answer before the deciding responder, or strict with all unavailable, or a second handshake; distinct by the full case shape.",
 	Assumptions: []string{"only unambiguous answers are used here (issuer or properly delegated signer, right serial, or plainly no answer); forged responses are C05"},
 }
 
